@@ -190,7 +190,10 @@ pub(crate) struct VoteOp {
 pub(crate) struct CrashOp {
     pub(crate) node: u8,
     /// 0 before the block, 1 after the first round, 2 after ProcessProposal of the deciding
-    /// round, 3 between FinalizeBlock and Commit
+    /// round, 3 between FinalizeBlock and Commit; 4: not the node but its consensus engine alone
+    /// restarts between FinalizeBlock and Commit - the application process survives and, after the
+    /// engine's handshake (Info reports the previous height), is sent FinalizeBlock for the same
+    /// block again, then Commit
     pub(crate) point: u8,
     /// number of following blocks during which the node stays down (0 = restart at once)
     pub(crate) down: u8,
@@ -1226,7 +1229,7 @@ pub(crate) fn generate(profile: &str, tier: &str, seed: u64) -> Scenario {
         let crash = if cfg.faults.crashes && rng.chance(1, 5) {
             Some(CrashOp {
                 node: rng.below(8) as u8,
-                point: rng.below(4) as u8,
+                point: rng.below(5) as u8,
                 down: rng.weighted(&[60, 25, 15]) as u8,
             })
         } else {
